@@ -152,4 +152,7 @@ def check(ctx):
     # storage occupied for good (pairing rule shared with C17 R17.2)
     import importlib as _il
     _il.import_module("props.C17").check_refcount_pairing(util.PrefixedCtx(ctx, "R05.7"))
+    # 'one owner per pool slot' across the OgreUnique -> OgreArc conversion (shared with C14 R14.5 / R14.8): a conversion that lets the unique handle's Drop run frees
+    # the slot the new shared handle still owns -- the slot is handed out twice (two accepted events in one slot) and freed twice
+    __import__("importlib").import_module("props.C14").check_unique_to_shared(ctx, "R05.3")
     ctx.floor("R05.5", 4); ctx.floor("R05.6", 2); ctx.floor("R05.7", 2); ctx.floor("R05.2", 5); ctx.floor("R05.4", 4)
